@@ -63,6 +63,34 @@ def modelDay (Y M D : Int) : Option String :=
   let j := jdn Y M D
   pure s!"{v.year} {v.month} {v.day} {dl} {weekOfJdn j} {weekOfJdn (jdn sd.1 sd.2.1 sd.2.2)}"
 
+/-- fallback line for a day whose view is refused: lunar-route pillar, weekday, lunar-route weekday, each on its own -/
+def modelDayFallback (Y M D : Int) : String :=
+  let j := jdn Y M D
+  let lp := match Lunar.ofSolar E Y M D with
+    | some (x, k) => (match dayPillar (Lunar.first E x) k with | some p => toString p | none => "r")
+    | none => "r"
+  let wl := match Lunar.ofSolar E Y M D with
+    | some (x, k) => (match Lunar.daySolar E x k with | some sd => toString (weekOfJdn (jdn sd.1 sd.2.1 sd.2.2)) | none => "r")
+    | none => "r"
+  s!"R {lp} {weekOfJdn j} {wl}"
+
+def specDayFallback (Y M D : Int) : String :=
+  let j := 1721424 + Civil.ord Y M D
+  s!"R {(j + 49) % 60} {(j + 1) % 7} {(j + 1) % 7}"
+
+/-- `SixtyCycleHour::get_sixty_cycle_day().next(n)`: the view of the civil day n days later (nothing of the instant survives) -/
+def modelDayNext (Y M D h mi s n : Int) : Option String :=
+  if !(solarDayOk Y M D && decide (0 ≤ h ∧ h ≤ 23 ∧ 0 ≤ mi ∧ mi ≤ 59 ∧ 0 ≤ s ∧ s ≤ 59)) then none else do
+  let _ ← ofSolarTime E Y M D h mi s
+  let d' ← dayNext (Y, M, D) n
+  let v ← ofSolarDay E d'.1 d'.2.1 d'.2.2
+  pure s!"{fmt3 d'} {v.year} {v.month} {v.day}"
+
+def firstThree (s : String) : String :=
+  match s.splitOn " " with
+  | a :: b :: c :: _ => s!"{a} {b} {c}"
+  | _ => s
+
 def modelTime (Y M D h mi s : Int) : Option String :=
   if !(solarDayOk Y M D && decide (0 ≤ h ∧ h ≤ 23 ∧ 0 ≤ mi ∧ mi ≤ 59 ∧ 0 ≤ s ∧ s ≤ 59)) then none else do
   let v ← ofSolarTime E Y M D h mi s
@@ -72,6 +100,7 @@ def execOp (op : String) (a : List Int) : Option (Option String) :=
   match op, a with
   | "scd", [y, m, d] => some (modelDay y m d)
   | "sch", [y, m, d, h, mi, s] => some (modelTime y m d h mi s)
+  | "sch.daynext", [y, m, d, h, mi, s, n] => some (modelDayNext y m d h mi s n)
   | "jd.week", [y, m, d, h, mi, s] => some <|
       if solarDayOk y m d && decide (0 ≤ h ∧ h ≤ 23 ∧ 0 ≤ mi ∧ mi ≤ 59 ∧ 0 ≤ s ∧ s ≤ 59) then some (toString (weekOfJdn (jdn y m d))) else none
   | "jd.weekf", [j, k] => some <| if 1721424 ≤ j ∧ j ≤ 5373484 ∧ 0 ≤ k ∧ k < 86400 then some (toString (weekOfJdn j)) else none
@@ -81,6 +110,14 @@ def specOp (op : String) (a : List Int) : Option (Option String) :=
   match op, a with
   | "scd", [y, m, d] => some (specDay y m d)
   | "sch", [y, m, d, h, mi, s] => some (specTime y m d h mi s)
+  | "sch.daynext", [y, m, d, h, mi, s, n] => some <|
+      if !(Civil.valid y m d && decide (0 ≤ h ∧ h ≤ 23 ∧ 0 ≤ mi ∧ mi ≤ 59 ∧ 0 ≤ s ∧ s ≤ 59)) then none else
+      match specTime y m d h mi s with
+      | none => none
+      | some _ =>
+        match Civil.ofOrd (Civil.ord y m d + n) with
+        | none => none
+        | some d' => (specDay d'.1 d'.2.1 d'.2.2).map fun r => s!"{fmt3 d'} {firstThree r}"
   | "jd.week", [y, m, d, h, mi, s] => some <|
       if Civil.valid y m d && decide (0 ≤ h ∧ h ≤ 23 ∧ 0 ≤ mi ∧ mi ≤ 59 ∧ 0 ≤ s ∧ s ≤ 59) then some (toString ((jdn y m d + 1) % 7)) else none
   | "jd.weekf", [j, k] => some <| if 1721424 ≤ j ∧ j ≤ 5373484 ∧ 0 ≤ k ∧ k < 86400 then some (toString ((j + 1) % 7)) else none
@@ -96,7 +133,8 @@ def enumDays (spec : Bool) (args : List String) (out : IO.FS.Stream) : IO Unit :
           let d : Int := di
           if solarDayOk y m d then
             let r := if spec then specDay y m d else modelDay y m d
-            buf := buf ++ s!"{y} {m} {d} {r.getD REFUSED}\n"
+            let fb := if spec then specDayFallback y m d else modelDayFallback y m d
+            buf := buf ++ s!"{y} {m} {d} {r.getD fb}\n"
       out.putStr buf
 
 def firstTwo (s : String) : String :=
